@@ -178,6 +178,11 @@ func Write(kind string, dir string, roots []cid.Cid, blks []kit.Blk, o Opts) (*W
 		res.Bytes = buf.Bytes()
 		return res, nil
 	case "def-path":
+		// the target path already holds a longer file (a repeated export to one file name): the writer must
+		// replace it, not write into it
+		if err := os.WriteFile(path, bytes.Repeat([]byte{0xEE}, 20000), 0o644); err != nil {
+			return nil, err
+		}
 		w := deferred.NewDeferredCarWriterForPath(path, roots, opts...)
 		for _, b := range blks {
 			res.PutErrs = append(res.PutErrs, w.Put(Ctx, b.Cid.KeyString(), b.Data))
